@@ -33,7 +33,7 @@ def is_output_term(t):
     cache = eng._out_cache if eng is not None else {}
     tid = t.get_id()
     if tid in cache:
-        return cache[tid]
+        return cache[tid][1]
     seen = set()
     st = [t]
     res = False
@@ -48,7 +48,7 @@ def is_output_term(t):
                 res = True
                 break
         st.extend(u.children())
-    cache[tid] = res
+    cache[tid] = (t, res)   # keep the term alive: z3 re-uses the ids of freed ASTs
     return res
 
 
